@@ -145,6 +145,20 @@ def main(argv):
     for f in fails:
         k = is_known(known, prop_id, f)
         (kf if k else viol).append((f, k))
+    # functions that did not exist when the contracts were written carry no contract: failures in them or in their direct
+    # callers mean "needs a contract", not "bug" (modular verification sees a callee only through its contract)
+    known_units = set(l.strip() for l in open(os.path.join(VERIF, 'spec', 'known_units.txt')) if l.strip() and not l.startswith('#'))
+    new_units = set(u['path'].split('@')[0] for u in res['units'] if u['path'].split('@')[0] not in known_units)
+    needs_contract = []
+    if new_units and viol:
+        keep = []
+        for f, k in viol:
+            callees = set(x.split('@')[0] for x in res.get('callgraph', {}).get(f['unit'], []))
+            if f['unit'].split('@')[0] in new_units or (callees & new_units):
+                needs_contract.append((f, sorted((callees & new_units) | ({f['unit']} & new_units))))
+            else:
+                keep.append((f, k))
+        viol = keep
     # stability: a failure that is not a listed finding is re-checked in isolation (one function, rlimit x4);
     # if the obligation is discharged there, the first failure was solver instability, not a violation
     unstable = []
@@ -207,6 +221,10 @@ def main(argv):
     elif tool:
         for t in tool[:10]:
             print('TOOL-ERROR: %s' % t)
+        rc = 2
+    elif needs_contract:
+        for f, who in needs_contract[:10]:
+            print('TOOL-ERROR: undecided: %s :: %s involves function(s) without a contract (new since the contracts were written): %s' % (f['unit'], f['oid'], ', '.join(who)))
         rc = 2
     extra['canaries'] = canaries
     extra['unstable'] = unstable
